@@ -25,9 +25,9 @@ import queue
 # ------------------------------------------------------------------ mirror of C26/Model.v
 
 K_READ, K_SETDEFAULT, K_ACQUIRE, K_CALLF, K_FRET, K_FRAISE, K_STORE, K_RELEASE = 1, 2, 3, 4, 5, 6, 7, 8
-KIND_OF = dict(IRead=K_READ, ISetDefault=K_SETDEFAULT, IAcquire=K_ACQUIRE, ICallF=K_CALLF,
-               IStore=K_STORE, IRelease=K_RELEASE)
-LOCAL = ("IIfDone", "IRetX", "IRetResult", "IRaise")
+KIND_OF = dict(IRead=K_READ, ISetDefault=K_SETDEFAULT, ISetDefaultX=K_SETDEFAULT, IAcquire=K_ACQUIRE,
+               ICallF=K_CALLF, IStore=K_STORE, IRelease=K_RELEASE)
+LOCAL = ("IIfDone", "IRetX", "IRetResult", "IRaise", "INewX")
 
 C_PROG = [("IRead", 2, 1), ("ISetDefault", 2), ("IIfDone", 3, 4), ("IRetX",), ("IAcquire", 5),
           ("IRead", 6, 9), ("IIfDone", 7, 9), ("IRelease", 8), ("IRetX",), ("ICallF", 10, 13),
@@ -75,6 +75,15 @@ def m_step(prog, s, t, o):
             l = s["nextlock"]
             return _upd(s, t, dict(me, pc=("At", ins[1]), x=("P", l)), cache=("P", l), nextlock=l + 1)
         return _upd(s, t, dict(me, pc=("At", ins[1]), x=c), nextlock=s["nextlock"] + 1)
+    if k == "INewX":
+        l = s["nextlock"]
+        return _upd(s, t, dict(me, pc=("At", ins[1]), x=("P", l)), nextlock=l + 1)
+    if k == "ISetDefaultX":
+        if me["x"] is None:
+            return stuck()
+        if c is None:
+            return _upd(s, t, dict(me, pc=("At", ins[2])), cache=me["x"])
+        return _upd(s, t, dict(me, pc=("At", ins[2]), x=c if ins[1] else me["x"]))
     if k == "IIfDone":
         if me["x"] is None:
             return stuck()
@@ -606,17 +615,179 @@ def run_case(impl, prog, n, case, timeout):
                 outcomes=[finished.get(t) for t in range(n)], probe=final_probe, unfinished=unfinished)
 
 
+def run_explore(n, case, timeout):
+    """Model-free run of the Python implementation: the schedule is a prefix of choices [t, o] followed by
+    'first choosable thread'; returns, per step, the choice made and the alternatives that existed, so that the
+    caller can enumerate the implementation's own schedule tree (stateless search).  A thread whose acquire
+    just failed is not choosable again until some thread has released a lock."""
+    ctl = Ctl(n, timeout)
+    call, probe = setup_py(ctl)
+    started = threading.Semaphore(0)
+    threads = [threading.Thread(target=thread_main, args=(ctl, t, call, started), daemon=True) for t in range(n)]
+    for th in threads:
+        th.start()
+    for _ in threads:
+        started.acquire()
+    parked, finished, sleeping = {}, {}, set()
+    steps = []
+    status, detail = "ok", ""
+
+    def absorb(m):
+        t, what, val = m
+        if what == "park":
+            parked[t] = val
+        else:
+            finished[t] = val
+            parked.pop(t, None)
+    try:
+        for _ in range(n):
+            absorb(ctl.msgs.get(timeout=timeout))
+        for t in range(n):
+            ctl.go[t].release()
+            parked.pop(t, None)
+            absorb(ctl.msgs.get(timeout=timeout))
+        prefix = [list(x) for x in case.get("prefix", [])]
+        i = 0
+        while len(finished) < n and i < 200:
+            alts = []
+            for t in sorted(parked):
+                if t in sleeping:
+                    continue
+                alts += [[t, 1], [t, 2]] if parked[t] == "fout" else [[t, 0]]
+            if not alts:
+                status, detail = "stuck", "no thread can be scheduled: parked=%r sleeping=%r" % (parked, sorted(sleeping))
+                break
+            ch = prefix[i] if i < len(prefix) and prefix[i] in alts else alts[0]
+            steps.append(dict(chosen=ch, alts=alts))
+            i += 1
+            t, o = ch
+            was = parked.pop(t)
+            nev = len(ctl.events)
+            ctl.grant_val[t] = o
+            ctl.go[t].release()
+            absorb(ctl.msgs.get(timeout=timeout))
+            for ev in ctl.events[nev:]:
+                if ev[0] == t and ev[1] == "acquire-blocked":
+                    sleeping.add(t)
+                if ev[1] == "op" and ev[2] == K_RELEASE:
+                    sleeping.clear()
+    except queue.Empty:
+        status, detail = "timeout", "no message within %ss; parked=%r finished=%r" % (timeout, parked, sorted(finished))
+    unfinished = [t for t in range(n) if t not in finished]
+    if unfinished:
+        ctl.abort = True
+        for t in range(n):
+            try:
+                ctl.go[t].release()
+            except RuntimeError:
+                pass
+    else:
+        for th in threads:
+            th.join(timeout)
+    import cffi.api as api
+    if hasattr(api, "_c26_real_alloc"):
+        api.allocate_lock = api._c26_real_alloc
+    return dict(status=status, detail=detail, steps=steps, sched=[st["chosen"] for st in steps], events=ctl.events,
+                outcomes=[finished.get(t) for t in range(n)], probe=None, unfinished=unfinished)
+
+
+def explore_tree(n, limit, timeout, seed):
+    """stateless depth-first search over the implementation's own schedule tree (see run_explore)"""
+    import hashlib
+    import random
+    rng = random.Random(seed) if seed is not None else None
+    todo = [[]]
+    runs, bad, nontrivial = 0, [], []
+    timeouts = 0
+    while todo and runs < limit and len(bad) < 3 and timeouts < 2:
+        prefix = todo.pop(rng.randrange(len(todo)) if rng is not None else -1)
+        r = run_explore(n, dict(prefix=prefix), timeout)
+        runs += 1
+        b = predicates(r, n)
+        if r["status"] in ("timeout", "stuck"):
+            timeouts += r["status"] == "timeout"
+            b.append("no call can make progress although no f is running (%s; threads %r unfinished): %s"
+                     % (r["status"], r["unfinished"], r["detail"]))
+        if b:
+            bad.append(dict(sched=r["sched"], outcomes=r["outcomes"], events=r["events"], bad=b))
+            continue
+        nontrivial.append(hashlib.sha1(repr(r["sched"]).encode()).hexdigest()[:12])
+        for i in range(len(prefix), len(r["steps"])):
+            st = r["steps"][i]
+            for alt in st["alts"]:
+                if alt != st["chosen"]:
+                    todo.append(r["sched"][:i] + [alt])
+    return dict(runs=runs, exhausted=not todo, bad=bad, nontrivial=nontrivial)
+
+
+def predicates(res, n):
+    """the property, decided on the implementation's own events (independent of the model)"""
+    bad = []
+    inside = None
+    completed = []          # (t, r)
+    raised_f = set()
+    started_after = False
+    cache_at_raise = {}
+    for t, what, extra, peek in res["events"]:
+        if what == "fenter":
+            if inside is not None:
+                bad.append("f of thread %d started while f of thread %d was still running" % (t, inside))
+            if completed:
+                bad.append("f of thread %d started after f of thread %d had completed normally" % (t, completed[0][0]))
+            inside = t
+        elif what == "fret":
+            completed.append((t, extra))
+            inside = None
+        elif what == "fraise":
+            raised_f.add(t)
+            inside = None
+            cache_at_raise[t] = peek
+        elif what == "op" and t in cache_at_raise and extra == K_STORE:
+            bad.append("thread %d stored into the cache after its own f raised" % t)
+    if len(completed) > 1:
+        bad.append("%d calls of f completed normally" % len(completed))
+    for t in range(n):
+        o = res["outcomes"][t]
+        if o is None:
+            continue
+        if o[0] == 1:
+            if not completed or o[1] != completed[0][1]:
+                bad.append("thread %d returned %r, the completed f returned %r" % (t, o[1], completed[:1]))
+            if t in raised_f:
+                bad.append("thread %d returned normally although its own f raised" % t)
+        elif o[0] == 3:
+            if t not in raised_f:
+                bad.append("thread %d raised f's exception without having run f" % t)
+        else:
+            bad.append("thread %d ended with %r" % (t, o))
+    if res["probe"] is not None and res["probe"] and res["probe"][0] == 2 and completed \
+            and res["probe"][1] != completed[0][1]:
+        bad.append("a later call returned %r, the completed f returned %r" % (res["probe"][1], completed[0][1]))
+    if res["probe"] is not None and res["probe"] and res["probe"][0] == 2 and not completed:
+        bad.append("a later call found a cached result although no f completed")
+    if res["probe"] is not None and res["probe"] and res["probe"][0] == 1 and completed:
+        bad.append("a later call ran f again although f had completed normally (nothing cached)")
+    return bad
+
+
+
 def main(payload):
     sys.setswitchinterval(1e-4)
     prog = [tuple(i) for i in payload["prog"]]
     out = []
     timeouts = 0
+    if payload.get("explore_tree"):
+        e = payload["explore_tree"]
+        return dict(results=[], tree=explore_tree(e["n"], e["limit"], payload.get("timeout", 30), e.get("seed")))
     for case in payload["cases"]:
         if timeouts >= 2:       # a deadlocking implementation: do not wait for every remaining case
             out.append(dict(status="skipped", detail="earlier cases timed out", sched=[], events=[],
                             outcomes=[None] * case["n"], probe=None, unfinished=[]))
             continue
-        out.append(run_case(payload["impl"], prog, case["n"], case, payload.get("timeout", 30)))
+        if case.get("explore"):
+            out.append(run_explore(case["n"], case, payload.get("timeout", 30)))
+        else:
+            out.append(run_case(payload["impl"], prog, case["n"], case, payload.get("timeout", 30)))
         if out[-1]["status"] == "timeout":
             timeouts += 1
     return dict(results=out)
